@@ -368,6 +368,12 @@ def random_edit(r, prog, kinds=None):
         n = r.choice([x for x in fns if x.get("where") != "init" and not x.get("cls") and not x.get("factory") and not x.get("lam")])
         names = [x["name"] for x in fns if not x.get("cls") and x.get("where") != "init"]
         cands = [x for x in names if names.index(x) > names.index(n["name"]) and x not in [q["to"] for q in n["refs"]]]
+        # (two helpers made by one factory have one qualified name: a function that calls both gets ONE hash rule for the two - the
+        #  open two-symbols finding; the generator keeps them apart)
+        have = {q["to"] for q in n["refs"]}
+        fact = {x["name"] for x in fns if x.get("factory")}
+        if have & fact:
+            cands = [x for x in cands if x not in fact]
         if cands:
             n["refs"].append({"to": r.choice(cands), "form": "bare"})
             return {"edit": "addref", "name": n["name"]}
